@@ -428,8 +428,22 @@ def rule_r1(ctx, repo):
             rets = [(s, o[1]) for s, o in traces if o[0] == "return"]
             raises = [s for s, o in traces if o[0] == "raise"]
             ctx.count("scenarios")
-            if len(rets) != 1 or not isinstance(rets[0][1], Tup) or len(rets[0][1].items) != 2:
-                ctx.undecided("R1", tag, "expected one normal return of (yt, Xt), found %r" % ([r for _, r in rets],), loc)
+            if not rets or any(not isinstance(r, Tup) or len(r.items) != 2 for _, r in rets) or len(rets) > 4:
+                ctx.undecided("R1", tag, "expected normal return(s) of (yt, Xt), found %r" % ([r for _, r in rets],), loc)
+                continue
+            if len(rets) > 1:
+                # more than one accepting path (e.g. a guard that no longer rejects): every accepted configuration must have a full window
+                rows_ = N - W - FHL + 1
+                for k_, (s_, _) in enumerate(rets):
+                    envs_ = feasible(grid(with_X), s_.facts)
+                    w_ = None
+                    for env in envs_:
+                        if env.eval(rows_) < 1:
+                            w_ = dict(env.describe(), rows=str(env.eval(rows_)))
+                            break
+                    Ob(ctx, "R1", "%s:nonempty#path%d" % (tag, k_), loc).settle(
+                        entails(s_.facts, ONE - rows_), w_, "every configuration accepted on this path has a full window",
+                        "a configuration without any full window is accepted (the transform returns no rows / partial rows)")
                 continue
             s, ret = rets[0]
             yt, Xt = ret.items
@@ -482,6 +496,16 @@ def run_method(repo, it, selfv, name, args, facts):
     a["self"] = selfv
     traces, fst = it.run_function(Frame(k.module, fn, selfv.cls, k), a, State(facts=facts))
     return traces, k, fn
+
+
+def nan_return(ctx, rule, tag, loc, rets):
+    """Under the scenario 'the last window is complete and finite' no accepting path may return the NaN forecast."""
+    bad = [r for _, r in rets if isinstance(r, Opq) and r.tag.endswith("_predict_nan")]
+    if bad:
+        ctx.violation(rule, tag + ":nan-forecast", "with a complete, finite last window _predict_last_window returns the NaN forecast "
+                      "(the regressor output is never returned)", loc, witness={"window": "complete and finite", "returned": "np.full(len(fh), nan)"})
+        return True
+    return False
 
 
 class Run:
@@ -750,6 +774,8 @@ def fit_multi(ctx, repo, run, tag, sci, facts, envs):
 def pred_direct(ctx, repo, run, tag, sci, facts, envs, multi):
     rets = run.predict(repo)
     loc = ctx.loc(run.pred_cls.module, run.pred_fn)
+    if nan_return(ctx, "R3", tag, loc, rets):
+        return
     if len(rets) != 1:
         ctx.undecided("R3", tag + ":predict", "_predict_last_window has %d normal returns under a fixed scenario" % len(rets), loc)
         return
@@ -849,6 +875,8 @@ def pred_recursive(ctx, repo, run, tag, sci, facts, envs):
     future = Ser("Xnew", FHL, T + FHL, NX) if run.with_X else None
     rets = run.predict(repo, future)
     loc = ctx.loc(run.pred_cls.module, run.pred_fn)
+    if nan_return(ctx, "R4", tag, loc, rets):
+        return
     if len(rets) != 1:
         ctx.undecided("R4", tag + ":predict", "_predict_last_window has %d normal returns under a fixed scenario" % len(rets), loc)
         return
@@ -889,6 +917,9 @@ def feedback_obligations(ctx, run, tag, loc, buf, X3, c, var, lp, pf, envs, ret,
     hi = lo + X3.shape[2]
     steps = lp.it.hi
     eq_lin(ctx, "R4", tag + ":buffer-length", loc, buf.shape[2], W + steps, pf, envs, "length of the feedback buffer")
+    eq_lin(ctx, "R4", tag + ":buffer-variables", loc, buf.shape[1], (NX + 1) if run.with_X else ONE, pf, envs,
+           "variable axis of the feedback buffer (one row for y plus one per exogenous column, as in fit)")
+    eq_lin(ctx, "R4", tag + ":buffer-rows", loc, buf.shape[0], ONE, pf, envs, "leading axis of the feedback buffer (one prediction row)")
     if expanding:
         eq_lin(ctx, "R4", tag + ":slice-lo", loc, lo, ZERO, pf, envs, "start of the expanding window", loops=[lp])
         eq_lin(ctx, "R4", tag + ":slice-hi", loc, hi, W + lp.var, pf, envs, "end of the expanding window at iteration i", loops=[lp])
@@ -1219,6 +1250,8 @@ class _Tri(Nd):
 def pred_dirrec(ctx, repo, run, tag, sci, facts, envs):
     rets = run.predict(repo)
     loc = ctx.loc(run.pred_cls.module, run.pred_fn)
+    if nan_return(ctx, "R4", tag, loc, rets):
+        return
     if len(rets) != 1:
         ctx.undecided("R4", tag + ":predict", "_predict_last_window has %d normal returns under a fixed scenario" % len(rets), loc)
         return
